@@ -36,7 +36,13 @@ impl Write for FaultyWriter {
                 self.buf.lock().unwrap().extend_from_slice(data);
                 Ok(data.len())
             }
-            Some(0) => Err(std::io::Error::new(std::io::ErrorKind::Other, "injected write failure")),
+            // the kind of the failure varies with the offset (a full disk, a closed pipe, a quota …): every kind is a failure
+            Some(0) => {
+                let kinds = [std::io::ErrorKind::Other, std::io::ErrorKind::BrokenPipe, std::io::ErrorKind::WriteZero, std::io::ErrorKind::PermissionDenied,
+                             std::io::ErrorKind::ConnectionReset, std::io::ErrorKind::TimedOut];
+                let k = kinds[self.buf.lock().unwrap().len() % kinds.len()];
+                Err(std::io::Error::new(k, "injected write failure"))
+            }
             Some(k) => {
                 let n = k.min(data.len());
                 self.buf.lock().unwrap().extend_from_slice(&data[..n]);
